@@ -17,11 +17,12 @@ import base64
 import hashlib
 import html
 import html.parser
+import os
 import re
 import urllib.parse
 import zlib
 
-from harness import env, render, world
+from harness import common, env, render, world
 from harness.common import Raw, cq
 
 PID = "C14"
@@ -41,7 +42,16 @@ RULE = ("stdlib: seeded random + boundary byte strings through base64/html/urlli
         "301..65535 (thorough: all 0..65535), entityIDs incl. unicode, metadata via MetadataStore.construct_source_id and "
         "synthetic maps (missing descriptor / service keys, several descriptors), malformed artifacts.  non-trivial = "
         "distinct (sub-check, character classes present in RelayState/destination/message, type, outcome)")
-TRUSTED = ["zlib (observed per case, abstract in the proofs)", "hashlib.sha1 (observed per case, abstract in the proofs)",
+def regenerate_tables(ctx):
+    """Translator: pack.add_query as it reads NOW -> coq/gen/C14Src.v; C14/Source.v proves it equal to the model."""
+    from harness import py2coq
+    return py2coq.regenerate(os.path.join(common.GEN, "C14Src.v"), [
+        (os.path.join(env.SRC, "saml2", "pack.py"), "add_query", {"name": "src_add_query", "params": ["location", "query"]})])
+
+
+TRUSTED = ["source-to-Gallina translator harness/py2coq.py + coq/theories/Base/Py.v (pack.add_query is re-translated from the source "
+           "text on every run; c14_source_add_query proves it equal to the model)",
+           "zlib (observed per case, abstract in the proofs)", "hashlib.sha1 (observed per case, abstract in the proofs)",
            "xml.etree / defusedxml parser and serialiser on the SOAP receiver side (compared by canonical tree digest)",
            "html.parser.HTMLParser and urllib.parse as the receiver's readers", "renderer harness/render.py",
            "abstraction in harness/c14.py"]
